@@ -536,7 +536,7 @@ func (k *Kind[C]) Run(t *testing.T, ev *Ev, checks int) {
 	}
 	flag.Set("rapid.checks", strconv.Itoa(checks))
 	flag.Set("rapid.seed", strconv.FormatUint(kindSeed(k.Name), 10))
-	flag.Set("rapid.shrinktime", "20s")
+	flag.Set("rapid.shrinktime", "10s")
 	flag.Set("rapid.nofailfile", "true")
 	var (
 		bestJS  []byte
